@@ -10,6 +10,7 @@ import NcVerif.Driver.LockD
 import NcVerif.Driver.OpsD
 import NcVerif.Driver.IsoD
 import NcVerif.Driver.ConnectD
+import NcVerif.Driver.XmlD
 open NcVerif.Driver
 
 structure DState where
@@ -24,6 +25,7 @@ def stepLine (st : DState) (line : String) : DState × String :=
   | "ops" :: rest => (st, opsCmd rest)
   | "iso" :: rest => (st, isoCmd rest)
   | "cn" :: rest => (st, connectCmd rest)
+  | "xm" :: rest => (st, xmlCmd rest)
   | "xt" :: rest => (st, xmlTextCmd rest)
   | "ss" :: rest => let (s', out) := sessionCmd st.sess rest; ({ st with sess := s' }, out)
   | _ => (st, "bad-model")
